@@ -327,6 +327,13 @@ class Interp(MiniEval):
             return args[1]
         if text == 'print':
             return None
+        if text == 'next' and args and not isinstance(args[0], (Obj, Sym)) and text not in self.stubs:
+            try:
+                return next(*args)
+            except StopIteration:
+                raise Raised('StopIteration')
+            except TypeError:
+                raise Raised('TypeError')
         if text == 'isinstance' and len(args) == 2:
             return self.isinstance(args[0], args[1])
         if text == 'super':
@@ -501,7 +508,7 @@ class Interp(MiniEval):
             # a generator is run eagerly: its items are collected (sound for the pure stubs the tables use)
             sub.yielded = []
             sub.run(fn.body)
-            return list(sub.yielded)
+            return iter(list(sub.yielded))
         return sub.run(fn.body)
 
     # ---- statements --------------------------------------------------------------------------------------
